@@ -517,7 +517,10 @@ impl System for PollSys {
             ob: Obs::default(),
         }
     }
-    fn actions(&self, _s: &PoState, out: &mut Vec<PoAct>) {
+    fn actions(&self, s: &PoState, out: &mut Vec<PoAct>) {
+        self.actions_at(s, u32::MAX, out)
+    }
+    fn actions_at(&self, _s: &PoState, depth: u32, out: &mut Vec<PoAct>) {
         for &(c, v) in &self.alphabet {
             out.push(PoAct::Cc(c, v));
         }
@@ -529,8 +532,10 @@ impl System for PollSys {
         for i in 0..self.pauses.len() {
             out.push(PoAct::Pause(i as u8));
         }
-        for i in 0..self.storms.len() {
-            out.push(PoAct::ResetStorm(i as u8));
+        if depth <= STORM_DEPTH + 1 {
+            for i in 0..self.storms.len() {
+                out.push(PoAct::ResetStorm(i as u8));
+            }
         }
         out.push(PoAct::TouchAll);
         out.push(PoAct::Reset);
